@@ -591,7 +591,7 @@ def run(ctx):
         return
     build.ensure("asan")
     acs = []
-    for c in cases(ctx, ctx.pick(12, 48), 25, "asan", "asan"):
+    for c in cases(ctx, ctx.pick(8, 48), 25, "asan", "asan"):
         # small slices: a sanitizer abort loses at most five injections
         acs += [dict(c, k0=k0, ninj=k0 + 5) for k0 in range(0, 25, 5)]
     _collect(ctx, acs, par.run("vf.props.c30", "worker", acs, nproc=16, timeout=ctx.pick(1500, 2400), asan=True))
